@@ -1,7 +1,11 @@
 ----------------------------- MODULE CallsEmit -----------------------------
 (* Emission wrapper: prints the library once (initial state) and every completed call as one JSON line. *)
 EXTENDS Calls, Json
-EmitLib == stage = "fn" => PrintT(ToJson([lib |-> Lib, helpers |-> Helpers, tvdecls |-> TvDecls, protofns |-> ProtoFns]))
+\* itvs: per library entry, the type variables whose solution the harness observes (Calls!ImplTvs); gclasses / gcanon:
+\* the generic classes the harness renders and the receiver literal of the method-call entries
+EmitLib == stage = "fn" => PrintT(ToJson([lib |-> Lib, helpers |-> Helpers, tvdecls |-> TvDecls, protofns |-> ProtoFns,
+                                          itvs |-> [i \in 1..Len(Lib) |-> ImplTvs(Lib[i])], gclasses |-> GClasses,
+                                          gcanon |-> [i \in 1..Len(GClasses) |-> GCanon(GClasses[i].n)]]))
 EmitDone == stage = "done" => PrintT(ToJson(case))
 EmitSess == stage = "sdone" => PrintT(ToJson([sess |-> TheSess]))
 =============================================================================
